@@ -47,6 +47,25 @@ CLAIMS = {
                 text="every refusal disjunct is an action with UNCHANGED state (RefusalIsNoOp checked by TLC) interleaved by TLC at every "
                      "position of bounded histories; the replay requires an exception and an unchanged snapshot; WellFormed on all states",
                 technique="TLA+ spec HistPool refusal actions + TLC; fault-injecting replay (exception + unchanged snapshot)"),
+    "C02": dict(spec="HistND", design="5/C02",
+                text="TLC checks CellContents, MissedAccounting, ShapesMatch on every reachable state of HistND (asymmetric axes, gapped "
+                     "axis, per-axis right-edge rule, NaN rows, weights); every Construct/NewEmpty transition is replayed through "
+                     "physt.h / h2 (row-wise, column-wise, list input, binning objects or edge arrays) under 5-8 embeddings",
+                technique="TLA+ spec HistND + TLC invariants; TLC state graph replayed into physt.h/h2/h3"),
+    "C09": dict(spec="HistND", design="5/C09",
+                text="TLC checks ProjectionLaws (totals, stepwise = direct, T.T = id) and ProjectionEqualsDirect (marginal = histogram of the "
+                     "kept columns, via ghost rows); every projection of parents with distinct cell contents (2D..4D), by index and by "
+                     "name, chains, T, accumulate and refused axis lists are replayed and compared",
+                technique="TLA+ spec HistND + TLC invariants; lockstep replay of derivations"),
+    "C10": dict(spec="HistPool+HistND", design="5/C10",
+                text="TLC checks MergeLaws (runs of `amount`, edges, sums, totals, missed) on both specs; merges (amounts 1..7, every "
+                     "axis / all axes, inplace or copy, chains), min_frequency as a nondeterministic coarsening the code must refine, "
+                     "and refused merges are replayed",
+                technique="TLA+ specs HistPool, HistND + TLC invariants; refinement replay (code result must be one of the spec successors)"),
+    "C11": dict(spec="HistPool+HistND", design="5/C11",
+                text="Python slice/index normalisation transcribed in TLA+; TLC checks SliceLaws (conservation of total+under+over, indexed "
+                     "values) and enumerates every slice, int, mask, index array (1D) and int/slice tuple (ND) for small shapes; all replayed",
+                technique="TLA+ specs HistPool (Slice/GetBin/Take), HistND (GetItem) + TLC; exhaustive replay of index expressions"),
 }
 
 PENDING = {}
